@@ -5,7 +5,8 @@
 (* observation = the cell (integ, entry, method, frame, items) plus          *)
 (*   status   HTTP status of the response                                    *)
 (*   errs     one boolean per GraphQL response in the body: it has `errors`  *)
-(*            (empty when the body is not JSON, e.g. a plain 4xx rejection)  *)
+(*            (empty when the body is not JSON, e.g. a plain 4xx rejection;  *)
+(*            for a multipart/mixed body: one per non-heartbeat part)        *)
 (*   effects  delta of the mutation resolver's side-effect counter           *)
 (*   reads    runs of the query resolver                                     *)
 (*                                                                           *)
@@ -25,7 +26,8 @@ EXTENDS HttpMethod, IOUtils
 Obs == ndJsonDeserialize(IOEnv.TRACE)
 VARIABLE l
 
-AsCell(o) == [integ |-> o.integ, entry |-> o.entry, method |-> o.method, frame |-> o.frame, items |-> o.items]
+AsCell(o) == [integ |-> o.integ, entry |-> o.entry, method |-> o.method, accept |-> o.accept,
+              frame |-> o.frame, items |-> o.items]
 \* "answered with an error": an HTTP error status, or a GraphQL response with `errors`
 ErrorReported(o) == o.status >= 400 \/ (Len(o.errs) = 1 /\ o.errs[1])
 AnyErr(o) == o.status >= 400 \/ \E k \in 1..Len(o.errs) : o.errs[k]
